@@ -141,7 +141,13 @@ fn one(st: &mut Stats, seed: u64, i_s: u64, t_s: u64, script: Script, reverse_or
                 () = tokio::time::sleep_until(t_end) => break,
             }
         }
-        let outcomes = if returned { Some(pend.collect().await) } else { None };
+        let outcomes = if returned {
+            let mut o = pend.collect().await;
+            o.extend(endops::later(&e0.mux, true).await);
+            Some(o)
+        } else {
+            None
+        };
         drop(e0.mux);
         (returned, outcomes)
     });
